@@ -58,7 +58,7 @@ func (d Decimal) Ceil(dp int) Decimal {
 		return zero(d.Signbit())
 	}
 
-	dp = dp*-1 + exponentBias
+	dp = quantumExponent(dp)
 	iexp := int(exp)
 
 	if iexp >= dp {
@@ -70,7 +70,7 @@ func (d Decimal) Ceil(dp int) Decimal {
 			return zero(d.Signbit())
 		}
 
-		return compose(false, uint128{1, 0}, int16(dp))
+		return quantised(false, uint128{1, 0}, dp)
 	}
 
 	var trunc int8
@@ -92,7 +92,6 @@ func (d Decimal) Ceil(dp int) Decimal {
 	}
 
 	neg := d.Signbit()
-	exp = int16(iexp)
 
 	if !neg {
 		for trunc != 0 {
@@ -107,16 +106,12 @@ func (d Decimal) Ceil(dp int) Decimal {
 					trunc = 1
 				}
 
-				exp++
+				iexp++
 			}
 		}
 	}
 
-	if exp > maxBiasedExponent {
-		return inf(neg)
-	}
-
-	return compose(neg, sig, exp)
+	return quantised(neg, sig, iexp)
 }
 
 // Floor returns the greatest Decimal value less than or equal to d that has no
@@ -139,7 +134,7 @@ func (d Decimal) Floor(dp int) Decimal {
 		return zero(d.Signbit())
 	}
 
-	dp = dp*-1 + exponentBias
+	dp = quantumExponent(dp)
 	iexp := int(exp)
 
 	if iexp >= dp {
@@ -151,7 +146,7 @@ func (d Decimal) Floor(dp int) Decimal {
 			return zero(d.Signbit())
 		}
 
-		return compose(true, uint128{1, 0}, int16(dp))
+		return quantised(true, uint128{1, 0}, dp)
 	}
 
 	var trunc int8
@@ -173,7 +168,6 @@ func (d Decimal) Floor(dp int) Decimal {
 	}
 
 	neg := d.Signbit()
-	exp = int16(iexp)
 
 	if neg {
 		for trunc != 0 {
@@ -188,16 +182,12 @@ func (d Decimal) Floor(dp int) Decimal {
 					trunc = 1
 				}
 
-				exp++
+				iexp++
 			}
 		}
 	}
 
-	if exp > maxBiasedExponent {
-		return inf(neg)
-	}
-
-	return compose(neg, sig, exp)
+	return quantised(neg, sig, iexp)
 }
 
 // Round rounds (or quantises) a Decimal value to the specified number of
@@ -221,7 +211,7 @@ func (d Decimal) Round(dp int, mode RoundingMode) Decimal {
 		return zero(d.Signbit())
 	}
 
-	dp = dp*-1 + exponentBias
+	dp = quantumExponent(dp)
 	iexp := int(exp)
 
 	if iexp >= dp {
@@ -252,11 +242,45 @@ func (d Decimal) Round(dp int, mode RoundingMode) Decimal {
 	neg := d.Signbit()
 	sig, exp = mode.round(false, neg, sig, int16(iexp), trunc, digit)
 
-	if exp > maxBiasedExponent {
-		return inf(neg)
+	return quantised(neg, sig, int(exp))
+}
+
+// quantumExponent converts a number of decimal places into the biased
+// exponent of the corresponding quantum. Values of dp that put the quantum
+// beyond anything a Decimal can hold are clamped so the conversion cannot
+// overflow.
+func quantumExponent(dp int) int {
+	if dp < -(maxBiasedExponent + maxDigits + 1) {
+		dp = -(maxBiasedExponent + maxDigits + 1)
 	}
 
-	return compose(neg, sig, exp)
+	if dp > exponentBias {
+		dp = exponentBias
+	}
+
+	return dp*-1 + exponentBias
+}
+
+// quantised returns sig x 10**exp (exp biased), a multiple of a quantum that
+// may lie above the largest exponent, moving the excess of the exponent into
+// the significand where it fits and returning infinity where it doesn't.
+func quantised(neg bool, sig uint128, exp int) Decimal {
+	if sig[0]|sig[1] == 0 {
+		return zero(neg)
+	}
+
+	for exp > maxBiasedExponent {
+		tmp := sig.mul64(10)
+
+		if tmp[1] > 0x0002_7fff_ffff_ffff {
+			return inf(neg)
+		}
+
+		sig = tmp
+		exp--
+	}
+
+	return compose(neg, sig, int16(exp))
 }
 
 // RoundingMode determines how a Decimal value is rounded when the result of an
